@@ -181,6 +181,39 @@ static void m8(void) {
     VS_CHECK(aws_thread_join_all_managed() == AWS_OP_SUCCESS, "join-all-result", "second join_all (no timeout) failed");
     check_managed_all(1);
 }
+/* M9: the system refuses a thread (pthread_create fails with EAGAIN - an environment answer).  The refused launch must
+ * report the error and leave no trace: the outstanding count is what it was, while another managed thread is running and
+ * a join-all is (in some schedules) already waiting; afterwards launches work again and join-all finishes the job */
+static void *m9_joiner(void *a) {
+    (void)a;
+    if (aws_thread_join_all_managed() != AWS_OP_SUCCESS) vs_fail("join-all-result", "join_all on the helper thread failed");
+    return NULL;
+}
+static void m9(void) {
+    setup();
+#ifdef VSX_FREE
+    return;
+#endif
+    pthread_mutex_lock(&hm);
+    m_launch(0);
+    pthread_t j;
+    pthread_create(&j, NULL, m9_joiner, NULL);
+    vs_refuse_creates = 1;
+    int rc = aws_thread_launch(&thr[1], body, &targs[1], &managed);
+    int err = rc ? aws_last_error() : 0;
+    VS_CHECK(rc == AWS_OP_ERR && err == AWS_ERROR_THREAD_INSUFFICIENT_RESOURCE, "refused-launch-result", "launch with pthread_create refusing (EAGAIN) returned %d / error %d", rc, err);
+    VS_CHECK(ran[1] == 0, "refused-launch-ran", "the refused thread's function ran");
+    m_launch(2);
+    pthread_mutex_unlock(&hm);
+    VS_CHECK(aws_thread_join_all_managed() == AWS_OP_SUCCESS, "join-all-result", "join_all failed");
+    pthread_join(j, NULL);
+    VS_CHECK(aws_thread_get_managed_thread_count() == 0, "managed-count", "managed thread count is %zu after join_all", aws_thread_get_managed_thread_count());
+    VS_CHECK(vs_threads_unfinished() == 0, "managed-not-finished", "threads still running after join_all");
+    VS_CHECK(vs_thread_was_joined(1) && vs_thread_was_joined(3), "managed-not-joined", "a managed thread was never joined");
+    check_thread(0, 1);
+    check_thread(2, 3);
+    VS_CHECK(ga.live_blocks == 0, "leak", "%llu allocation(s) still live (the refused launch must release its wrapper)", (unsigned long long)ga.live_blocks);
+}
 /* M7: two threads are inside join-all at the same time (an explicit call racing library clean-up): both must return */
 static void *m7_joiner(void *a) {
     (void)a;
@@ -282,6 +315,7 @@ int main(int argc, char **argv) {
         {.name = "M5-managed-cpu-pinning-refused", .run = m5, .bound_quick = 2, .bound_thorough = 3},
         {.name = "M6-join-timeout-then-join-all", .run = m6, .bound_quick = 2, .bound_thorough = 3},
         {.name = "M8-timeout-reinit-then-join-all", .run = m8, .bound_quick = 3, .bound_thorough = 4},
+        {.name = "M9-create-refused-while-join-all-waits", .run = m9, .bound_quick = 2, .bound_thorough = 3},
         {.name = "M7-two-join-all-callers", .run = m7, .bound_quick = 2, .bound_thorough = 3},
         {.name = "J1-joinable-at-exit", .run = j1, .bound_quick = 3, .bound_thorough = 5},
         {.name = "J3-refused-self-join-then-join", .run = j3, .bound_quick = 3, .bound_thorough = 5},
